@@ -636,19 +636,31 @@ def rearmed_after_children(h: History, fs: dict[str, Any]) -> list[str]:
     were never started again and whose parent is RUNNING at the end: CompleteStage of the failed parent counts every
     after-child that is not complete as "in flight, it will drive the parent" - a re-armed leftover never will."""
     last: dict[str, dict[str, Any]] = {}
+    born: dict[str, int] = {}
+    parent_rearm: dict[str, int] = {}     # stage id -> seq of the last jump re-arm of that stage
     for r in h.audit:
+        if r["kind"] == "stage_ins":
+            born[r["row_id"]] = r["seq"]
         if r["kind"] == "stage" and r["old"] != r["new"]:
             last[r["row_id"]] = r
+            if r["new"] == "NOT_STARTED" and ctx_handler(r["ctx"]) == "JumpToStage":
+                parent_rearm[r["row_id"]] = r["seq"]
     out = []
     final = {v["id"]: (k, v) for k, v in fs["stages"].items()}
-    for sid, r in last.items():
+    for sid, (_k, v) in final.items():
         info = h.stage_info.get(sid) or {}
         if not info.get("parent") or not str(info.get("owner") or "").endswith("AFTER"):
             continue
-        if r["new"] == "NOT_STARTED" and ctx_handler(r["ctx"]) == "JumpToStage":
-            par = final.get(info["parent"])
-            if par is not None and par[1]["status"] == "RUNNING":
-                out.append(h.key_of_stage(sid))
+        par = final.get(info["parent"])
+        if par is None or par[1]["status"] != "RUNNING" or v["status"] != "NOT_STARTED":
+            continue
+        r = last.get(sid)
+        if r is not None and r["new"] == "NOT_STARTED" and ctx_handler(r["ctx"]) == "JumpToStage":
+            out.append(h.key_of_stage(sid))
+        elif r is None and sid in born and parent_rearm.get(info["parent"], -1) > born[sid]:
+            # planned, its StartStage still on the way when the jump re-armed the parent: that StartStage finds the
+            # parent NOT_STARTED and is dropped, the child is a NOT_STARTED leftover all the same
+            out.append(h.key_of_stage(sid))
     return sorted(out)
 
 
